@@ -1,4 +1,6 @@
 """C08 - well numbering is column-major, 1-based, device specific for troughs."""
+from ..drivers import targeted
+from ._twin import replay_programs, run_programs
 from ._util import replay_calls, run_calls
 
 
@@ -32,10 +34,13 @@ def check(run, tier):
         "model: every geometry of MC_Geom is one state, all numbering lemmas are invariants; implementation: one call "
         "record per labware geometry holding the observed EVO/Fluent numbers, index map, positions and id array of "
         "every well, judged by Trace_Calls against EvoPos/FluentPos/RealRC/IdArray; distinct = distinct geometries "
-        "(all non-trivial: every one has at least one well)"
+        "(all non-trivial: every one has at least one well); out-of-range and malformed ids through aspirate/dispense/transfer/"
+        "distribute on both devices judged by Trace_Twin (C08.badwell: raises, no pipetting record, volumes unchanged)"
     )
     run.mc("MC_Geom", "MC_Geom" if tier == "quick" else "MC_Geom_thorough")
     run_calls(run, geometries(tier, rng("C08")), batch=60 if tier == "quick" else 40)
+    # well ids that do not exist: every record emitting operation must raise without emitting a record
+    run_programs(run, targeted.badwell_programs("evo") + targeted.badwell_programs("fluent"))
     run.extra["exhaustive"] = tier == "thorough"
     run.assumptions += [
         "the harness formats well identifiers itself (row letter + two-digit column) and trusts its own row-major enumeration",
@@ -44,4 +49,7 @@ def check(run, tier):
 
 
 def replay(run, rp):
-    replay_calls(run, rp)
+    if "prog" in rp["item"]:
+        replay_programs(run, rp)
+    else:
+        replay_calls(run, rp)
